@@ -425,26 +425,22 @@ struct EGioFile_st {int type; void*file;};
 /* ========================================================================= */
 int EGioWrite(EGioFile_t*file,const char*const string)
 {
-	char buf[EGio_BUFSIZE];
-	int len;
-	buf[EGio_BUFSIZE-1] = 0;
-	snprintf(buf,EGio_BUFSIZE,"%s",string);
-	len = strlen(buf);
-	if(len<=0 || len >= EGio_BUFSIZE || buf[EGio_BUFSIZE-1]!=0) return 0;
+	size_t len = strlen(string);
+	if(!len) return 0;
 	switch(file->type)
 	{
 		case EGIO_PLAIN:
-			return fwrite(buf, (size_t)1, (size_t)len, (FILE*)(file->file));
+			return fwrite(string, (size_t)1, len, (FILE*)(file->file));
 		case EGIO_ZLIB:
 #ifdef HAVE_LIBZ
-			return gzwrite((gzFile)(file->file),buf,(unsigned)len);
+			return gzwrite((gzFile)(file->file),string,(unsigned)len);
 #else
 			QSlog("no zlib support");
 			return 0;
 #endif
 		case EGIO_BZLIB:
 #ifdef HAVE_LIBBZ2
-			return BZ2_bzwrite((BZFILE*)(file->file),buf,len);
+			return BZ2_bzwrite((BZFILE*)(file->file),(void*)string,(int)len);
 #else
 			QSlog("no bzip2 support");
 			return 0;
@@ -458,12 +454,23 @@ int EGioWrite(EGioFile_t*file,const char*const string)
 int EGioPrintf(EGioFile_t*file,const char* format, ...)
 {
 	char buf[EGio_BUFSIZE];
+	char *big = 0;
+	int len, rval;
 	va_list va;
-	buf[EGio_BUFSIZE-1]=0;
 	va_start(va,format);
-	vsnprintf(buf,EGio_BUFSIZE,format,va);
+	len = vsnprintf(buf,EGio_BUFSIZE,format,va);
 	va_end(va);
-	return EGioWrite(file,buf);
+	if(len < 0) return 0;
+	if(len < EGio_BUFSIZE) return EGioWrite(file,buf);
+	/* longer than the stack buffer (an exact rational can have any number of digits) */
+	big = (char*)malloc((size_t)len+1);
+	if(!big) return 0;
+	va_start(va,format);
+	vsnprintf(big,(size_t)len+1,format,va);
+	va_end(va);
+	rval = EGioWrite(file,big);
+	free(big);
+	return rval;
 }
 /* ========================================================================= */
 EGioFile_t* EGioOpenFILE(FILE*ifile)
